@@ -9,3 +9,48 @@ package blobclient
 //@   requires p != nil && cluster != nil
 //@   modifies *
 //@   assert sampled_host: at Provider.Provide#0 :: (addr in addrs) && len(addrs) <= 3 && (forall a string :: (a in addrs) ==> (a in cluster.resolved))
+
+// ---- C35: a successful cluster download delivers the blob exactly once ---------------------------
+// Bytes are counted by ghost fields: io.Writer.nw (bytes a writer has accepted) and the real
+// countingWriter.n. The single-origin download is assumed to write only through Write
+// (contracts/externs/clients.spec); everything else is verified: the counting writer, the closure
+// that refuses further attempts once part of the blob has reached the destination, Poll's
+// protocol (it returns nil only right after a request that returned nil), and - by the callback
+// rule - the top-level postcondition of clusterClient.DownloadBlob.
+
+//@ func countingWriter.Write
+//@   requires c != nil && c.w != nil && 0 <= c.n && c.n <= 4611686018427387904 && len(p) <= 4611686018427387904
+//@   modifies c.n, c.w.nw
+//@   ensures counted: 0 <= result0 && result0 <= len(p) && c.n == old(c.n) + result0 && c.w.nw == old(c.w.nw) + result0
+
+// Poll: ghost bookkeeping of the requests on the resolver (calls, lastnil).
+//@ func Poll@param:makeRequest(client)
+//@   requires client != nil
+//@   modifies r.calls, r.lastnil
+//@   ensures r.calls == old(r.calls) + 1 && (r.lastnil <==> result == nil)
+
+// Poll returns nil only immediately after a request that returned nil; it changes nothing but
+// through its requests.
+//@ func Poll
+//@   requires r != nil && b != nil
+//@   callback makeRequest
+//@   modifies r.calls, r.lastnil
+//@   ensures nil_only_after_a_successful_request: result == nil ==> r.calls > old(r.calls) && r.lastnil
+//@   loop 0 invariant outer: r.calls >= old(r.calls) && (forall j int :: 0 <= j && j < len(clients) ==> clients[j] != nil) && 0 - 1 <= rangeindex && rangeindex < len(clients)
+//@   loop 1 invariant inner: r.calls >= old(r.calls) && (forall j int :: 0 <= j && j < len(clients) ==> clients[j] != nil) && client != nil
+
+// The request closure of clusterClient.DownloadBlob: w counts what has reached dst; once that is
+// more than nothing, every further attempt is refused without writing.
+//@ func clusterClient.DownloadBlob$1
+//@   requires client != nil && w != nil && w.w != nil
+//@   modifies every countingWriter.n, every io.Writer.nw
+//@   invariant coupled: w.n >= 0 && w.w == atcall(w.w) && w.w.nw - w.n == atcall(w.w.nw - w.n)
+//@   ensures no_second_delivery: old(w.n) > 0 ==> result != nil && w.n == old(w.n) && w.w.nw == old(w.w.nw)
+//@   ensures whole_blob_on_success: old(w.n) == 0 && result == nil ==> w.n == bsize(d.hex)
+//@   ensures counts_together: w.n >= old(w.n) && w.w.nw - old(w.w.nw) == w.n - old(w.n)
+
+// Success means the destination received exactly the blob's bytes, once.
+//@ func clusterClient.DownloadBlob
+//@   requires c != nil && c.resolver != nil && dst != nil
+//@   modifies *
+//@   ensures exactly_once: result == nil ==> dst.nw == old(dst.nw) + bsize(d.hex)
